@@ -1,0 +1,68 @@
+//go:build verif
+
+package debug
+
+// Contracts for the debug (access-callback) wrapper of a KVStore (property C04: a wrapper forwards every operation unchanged), read by the
+// verification machinery in /verif. Comment-only file. Each method calls the method of the SAME name of the wrapped
+// store with the same arguments (also the optional iteration direction). What the wrapped store does is its own
+// contract (mapdb: verified; others: the KVStore interface).
+
+/*@
+type debugStore
+  callback accessCallback(cmd, params)
+
+-- the command filter is a bit mask: a pure test
+assume-func github.com/iotaledger/hive.go/ds/bitmask.BitMask.HasBits(m, bits) (r)
+  ensures true
+
+func debugStore.Iterate
+  requires s != nil && s.underlying != nil
+  modifies everything
+  ghost before call KVStore.Iterate: assert arg0 == s.underlying && arg1 == prefix && arg2 == kvConsumerFunc && arg3 == iterDirection
+
+func debugStore.IterateKeys
+  requires s != nil && s.underlying != nil
+  modifies everything
+  ghost before call KVStore.IterateKeys: assert arg0 == s.underlying && arg1 == prefix && arg2 == consumerFunc && arg3 == iterDirection
+
+func debugStore.Clear
+  requires s != nil && s.underlying != nil
+  modifies everything
+  ghost before call KVStore.Clear: assert arg0 == s.underlying
+
+func debugStore.Get
+  requires s != nil && s.underlying != nil
+  modifies everything
+  ghost before call KVStore.Get: assert arg0 == s.underlying && arg1 == key
+
+func debugStore.Set
+  requires s != nil && s.underlying != nil
+  modifies everything
+  ghost before call KVStore.Set: assert arg0 == s.underlying && arg1 == key && arg2 == value
+
+func debugStore.Has
+  requires s != nil && s.underlying != nil
+  modifies everything
+  ghost before call KVStore.Has: assert arg0 == s.underlying && arg1 == key
+
+func debugStore.Delete
+  requires s != nil && s.underlying != nil
+  modifies everything
+  ghost before call KVStore.Delete: assert arg0 == s.underlying && arg1 == key
+
+func debugStore.DeletePrefix
+  requires s != nil && s.underlying != nil
+  modifies everything
+  ghost before call KVStore.DeletePrefix: assert arg0 == s.underlying && arg1 == prefix
+
+func debugStore.Flush
+  requires s != nil && s.underlying != nil
+  modifies everything
+  ghost before call KVStore.Flush: assert arg0 == s.underlying
+
+func debugStore.Close
+  requires s != nil && s.underlying != nil
+  modifies everything
+  ghost before call KVStore.Close: assert arg0 == s.underlying
+
+@*/
